@@ -1,0 +1,87 @@
+//go:build verif
+
+package core
+
+// Contracts for phantom directory reification (property C15, second
+// sentence). Comment-only file: compiled only under the "verif" build tag,
+// contains no code. The "//@" lines are read by /verif/govc.
+
+// nameUnion returns a new set holding exactly the names of the given maps.
+//@ func nameUnion
+//@   ensures[names] result != nil
+//@   ensures[names] forall n string :: has(result, n) <==> (exists i in 0..len(contentMaps) :: hask(contentMaps[i], n))
+//@   loop 1 invariant[names] rangeindex < len(contentMaps) && result != nil && fresh(result)
+//@   loop 1 invariant[names] forall n string :: has(result, n) <==> (exists i in 0..rangeindex+1 :: hask(contentMaps[i], n))
+//@   loop 2 invariant[names] 0 <= rangeindex && rangeindex < len(contentMaps) && result != nil && fresh(result) && contents == contentMaps[rangeindex]
+//@   loop 2 invariant[names] forall n string :: visited(n) ==> hask(contents, n)
+//@   loop 2 invariant[names] forall n string :: has(result, n) <==> ((exists i in 0..rangeindex :: hask(contentMaps[i], n)) || visited(n))
+
+// reifyPhantomDirectories, one level deep. The boolean it returns ("trackable
+// content exists at or below this level") is abstracted by the uninterpreted
+// function rtrack of the three entries it is called with; the clauses [leaf]
+// and [result] say what that value is at one level.
+//@ ufunc rtrack(ancestor *Entry, alpha *Entry, beta *Entry) bool
+//@ pred isDirKind(e) = e != nil && dirKind(e.Kind)
+//@ pred isPhantom(e) = e != nil && e.Kind == EntryKind_PhantomDirectory
+//@ pred isTrackedDir(e) = e != nil && e.Kind == EntryKind_Directory
+//@ pred trackedKind(e) = e != nil && e.Kind != EntryKind_Untracked
+// e is absent, or not a directory kind and (as every valid non-directory) without contents
+//@ pred noDirs(e) = e == nil || (!dirKind(e.Kind) && e.Contents == nil)
+//@ spec childOf(e, n) int = (e != nil && hask(e.Contents, n)) ? e.Contents[n] : nil
+// some name of alpha or beta has trackable content at or below it
+//@ pred trackedBelow(ancestor, alpha, beta) = exists n string :: ((alpha != nil && hask(alpha.Contents, n)) || (beta != nil && hask(beta.Contents, n))) && rtrack(childOf(ancestor, n), childOf(alpha, n), childOf(beta, n))
+
+// The only memory written is the Kind and Contents fields of entries that are
+// phantom directories, and such an entry either stays, becomes a tracked
+// directory (same contents), or becomes untracked without contents: tracked
+// directories are never demoted, nothing else is touched.
+// A phantom directory handed to the function (alpha or beta) becomes a
+// tracked directory only if (clause onlyif) and if (clause reify) the ancestor at this path is a tracked
+// directory ("was synchronized before") or trackable content exists below it
+// ("holds synchronized content": some child call reports it); otherwise it
+// becomes untracked and loses its contents.
+//@ func reifyPhantomDirectories
+//@   mutates
+//@   overflow
+//@   modifies Entry.Kind, Entry.Contents
+//@   ensures[abs] result0 == rtrack(ancestor, alpha, beta)
+//@   ensures[onlyphantoms] forall x *Entry :: old(x.Kind) != EntryKind_PhantomDirectory ==> x.Kind == old(x.Kind) && x.Contents == old(x.Contents)
+//@   ensures[onlyphantoms] forall x *Entry :: old(x.Kind) == EntryKind_PhantomDirectory ==> (x.Kind == EntryKind_PhantomDirectory && x.Contents == old(x.Contents)) || (x.Kind == EntryKind_Directory && x.Contents == old(x.Contents)) || (x.Kind == EntryKind_Untracked && x.Contents == nil)
+//@   ensures[leaf] !old(isDirKind(alpha)) && !old(isDirKind(beta)) ==> result0 == (trackedKind(alpha) || trackedKind(beta)) && result1 == 0 && result2 == 0
+//@   ensures[leaf] !old(isDirKind(alpha)) && !old(isDirKind(beta)) ==> forall x *Entry :: x.Kind == old(x.Kind) && x.Contents == old(x.Contents)
+//@   ensures[onlyif] old(isPhantom(alpha)) && alpha.Kind == EntryKind_Directory && !old(isTrackedDir(ancestor)) ==> exists n string :: old(((alpha != nil && hask(alpha.Contents, n)) || (beta != nil && hask(beta.Contents, n))) && rtrack(childOf(ancestor, n), childOf(alpha, n), childOf(beta, n)))
+//@   ensures[onlyif] old(isPhantom(beta)) && beta.Kind == EntryKind_Directory && !old(isTrackedDir(ancestor)) ==> exists n string :: old(((alpha != nil && hask(alpha.Contents, n)) || (beta != nil && hask(beta.Contents, n))) && rtrack(childOf(ancestor, n), childOf(alpha, n), childOf(beta, n)))
+//@   ensures[reify] old(isPhantom(alpha)) && (old(isTrackedDir(ancestor)) || old(trackedBelow(ancestor, alpha, beta))) ==> alpha.Kind == EntryKind_Directory
+//@   ensures[reify] old(isPhantom(beta)) && (old(isTrackedDir(ancestor)) || old(trackedBelow(ancestor, alpha, beta))) ==> beta.Kind == EntryKind_Directory
+//@   ensures[untracked] old(isPhantom(alpha)) && alpha.Kind != EntryKind_Directory ==> alpha.Kind == EntryKind_Untracked && alpha.Contents == nil
+//@   ensures[untracked] old(isPhantom(beta)) && beta.Kind != EntryKind_Directory ==> beta.Kind == EntryKind_Untracked && beta.Contents == nil
+//@   ensures[keepdir] old(isTrackedDir(alpha)) ==> alpha.Kind == EntryKind_Directory && alpha.Contents == old(alpha.Contents)
+//@   ensures[keepdir] old(isTrackedDir(beta)) ==> beta.Kind == EntryKind_Directory && beta.Contents == old(beta.Contents)
+//@   ensures[result] old(isDirKind(alpha)) || old(isDirKind(beta)) ==> (result0 <==> (result1 >= 1 || result2 >= 1))
+//@   ensures[result] (old(isDirKind(alpha)) || old(isDirKind(beta))) && (old(isTrackedDir(ancestor)) || old(isTrackedDir(alpha)) || old(isTrackedDir(beta)) || old(trackedBelow(ancestor, alpha, beta))) ==> result0
+//@   ensures[result] alpha != beta && (old(isDirKind(alpha)) || old(isDirKind(beta))) && !old(isTrackedDir(ancestor)) && !old(isTrackedDir(alpha)) && !old(isTrackedDir(beta)) && !old(trackedBelow(ancestor, alpha, beta)) ==> !result0
+//@   ensures[counts] !result0 ==> result1 == 0 && result2 == 0
+//@   ensures[counts] (old(noDirs(alpha)) ==> result1 == 0) && (old(noDirs(beta)) ==> result2 == 0)
+//@   ensures[counts] (old(isDirKind(alpha)) && alpha.Kind == EntryKind_Directory ==> result1 >= 1) && (old(isDirKind(beta)) && beta.Kind == EntryKind_Directory ==> result2 >= 1)
+//@   at call reifyPhantomDirectories assert[children] (isDirKind(alpha) || isDirKind(beta)) && (hask(alphaContents, name) || hask(betaContents, name))
+//@   at call reifyPhantomDirectories assert[children] arg0 == childOf(ancestor, name) && arg1 == childOf(alpha, name) && arg2 == childOf(beta, name)
+//@   at call reifyPhantomDirectories assume (alpha != nil ==> alpha.Kind == old(alpha.Kind) && alpha.Contents == old(alpha.Contents)) && (beta != nil ==> beta.Kind == old(beta.Kind) && beta.Contents == old(beta.Contents)) && (ancestor != nil ==> ancestor.Kind == old(ancestor.Kind) && ancestor.Contents == old(ancestor.Contents))
+//@   loop 1 invariant[onlyphantoms] forall x *Entry :: old(x.Kind) != EntryKind_PhantomDirectory ==> x.Kind == old(x.Kind) && x.Contents == old(x.Contents)
+//@   loop 1 invariant[onlyphantoms] forall x *Entry :: old(x.Kind) == EntryKind_PhantomDirectory ==> (x.Kind == EntryKind_PhantomDirectory && x.Contents == old(x.Contents)) || (x.Kind == EntryKind_Directory && x.Contents == old(x.Contents)) || (x.Kind == EntryKind_Untracked && x.Contents == nil)
+//@   loop 1 invariant[tree] (alpha != nil ==> alpha.Kind == old(alpha.Kind) && alpha.Contents == old(alpha.Contents)) && (beta != nil ==> beta.Kind == old(beta.Kind) && beta.Contents == old(beta.Contents)) && (ancestor != nil ==> ancestor.Kind == old(ancestor.Kind) && ancestor.Contents == old(ancestor.Contents))
+//@   loop 1 invariant[names] forall n string :: visited(n) ==> (hask(alphaContents, n) || hask(betaContents, n))
+//@   loop 1 invariant[reify] trackedContentExistsAtLowerLevels ==> exists n string :: visited(n) && rtrack(childOf(ancestor, n), childOf(alpha, n), childOf(beta, n))
+//@   loop 1 invariant[reify] forall n string :: visited(n) && rtrack(childOf(ancestor, n), childOf(alpha, n), childOf(beta, n)) ==> trackedContentExistsAtLowerLevels
+//@   loop 1 invariant[counts] alphaDirectoryCount >= 0 && betaDirectoryCount >= 0 && (!trackedContentExistsAtLowerLevels ==> alphaDirectoryCount == 0 && betaDirectoryCount == 0)
+//@   loop 1 invariant[counts] (noDirs(alpha) ==> alphaDirectoryCount == 0) && (noDirs(beta) ==> betaDirectoryCount == 0)
+
+// ReifyPhantomDirectories works on copies: the two trees handed to the
+// rewriting are the leaf-preserving deep copies (directories and phantom
+// directories are copied, leaves shared - and only phantom directories are
+// ever written) of alpha and beta made by this call, the ancestor is passed
+// through, and the copies are what is returned - never alpha or beta.
+//@ func ReifyPhantomDirectories
+//@   ensures[copy] (alpha == nil ==> result0 == nil) && (alpha != nil ==> result0 != nil && fresh(result0) && result0 != alpha)
+//@   ensures[copy] (beta == nil ==> result1 == nil) && (beta != nil ==> result1 != nil && fresh(result1) && result1 != beta)
+//@   at call (*Entry).Copy assert[copy] arg1 == EntryCopyBehaviorDeepPreservingLeaves
+//@   at call reifyPhantomDirectories assert[copy] arg0 == ancestor && (arg1 == nil || fresh(arg1)) && (arg2 == nil || fresh(arg2)) && (alpha != nil ==> arg1 != nil && arg1.Kind == alpha.Kind) && (beta != nil ==> arg2 != nil && arg2.Kind == beta.Kind)
